@@ -315,6 +315,18 @@ def worker(ctx, job):
             check_write(ctx, res, srv, cache, flavour, side, entry, key, algo, 5 + j, 210 + j, [5 + j], "none", opts_extra={"time": str(t_)})
             for v_ in res["violations"][before_v:]:
                 v_["sig"] = v_["sig"].replace("write:", "rewrite-with-explicit-time:", 1)
+    # a value the key has held before comes back: A, B, A and A, remove, A (no options at all: the plainest calls)
+    if keyed:
+        key = "k-back-%s" % entry
+        for seq in (("A", "B", "A"), ("A", "remove", "A", "remove", "B", "A")):
+            for j, what in enumerate(seq):
+                if what == "remove":
+                    srv.call({"op": "remove_sync" if side == "s" else "remove", "cache": cache, "key": key})
+                    continue
+                before_v = len(res["violations"])
+                check_write(ctx, res, srv, cache, flavour, side, entry, key, algo, 6 if what == "A" else 7, 220 if what == "A" else 221, [3, 3] if what == "A" and streamed else ([7] if streamed else None), "none")
+                for v_ in res["violations"][before_v:]:
+                    v_["sig"] = v_["sig"].replace("write:", "value-written-again:", 1)
     # write, clear through the library, write the very same data again (same process, same digest directories)
     for n in (5, 1025):
         key = ("k-%s" % entry) if keyed else None
